@@ -16,9 +16,10 @@ import json
 import math
 import os
 import random
+import sys
 from fractions import Fraction
 
-from . import common
+from . import common, c12_tie
 from .common import blit, lst, natlit, qlit, strlit
 
 HEADER = """From Coq Require Import String List QArith Bool.
@@ -889,7 +890,48 @@ Lemma shard_ok : forallb ({pred}) cases = true.
 Proof. vm_compute. reflexivity. Qed.
 """
             shards.append((ctx.new_shard(txt), idxs))
+    source_tie(ctx)
     return shards
+
+
+# ----------------------------------------------------------------------------------------------
+# second tie: the current source translated to Gallina and proved equal to the model (c12_tie.py)
+# ----------------------------------------------------------------------------------------------
+def source_tie(ctx):
+    """Runs after the Coq build (emit is only called when it succeeded).  A broken source tie alone is no
+    alarm: it is recorded in coverage.source_tie; run() adds it to ctx.broken only when the behavioural
+    correspondence or the oracle report a violation as well."""
+    try:
+        tie = c12_tie.run(ctx, common.REPO)
+    except Exception as ex:      # optional evidence; never let it abort the check
+        tie = {"translated": [], "lemmas_ok": False, "lemmas": [], "not_tied": {"all": repr(ex)},
+               "detail": f"SOURCE TIE BROKEN: c12_tie aborted: {type(ex).__name__}: {ex}"}
+    ctx.cov["source_tie"] = tie
+    for sec in tie.get("not_tied", {}):
+        ctx.hist("T.source_tie_broken." + sec)
+    ctx.hist("T.source_tie_lemmas", len(tie.get("lemmas", [])))
+    ctx.extra_tb = getattr(ctx, "extra_tb", []) + [
+        "source tie (advisory): tools/py2gallina_c12.py (fail-closed Python-ast -> Gallina translator of mm.py and of the _tune_fast / "
+        "_tune_slow of NUTSKernel / HMCKernel; arrays as flat size + C-order items, matrices as column lists, floats as exact rationals, "
+        "jnp.sqrt the model's oracle, field assignments as shadowing lets, its library-call table with the targets defined in "
+        "Goose/GenC12Tie.v) and the statements of the lemmas in harness/lv/c12_tie.py; result of this run in coverage.source_tie"]
+
+
+def run(ctx):
+    orig_finish = ctx.finish
+
+    def finish(*a, **k):
+        tie = ctx.cov.get("source_tie")
+        if tie is None:
+            ctx.cov["source_tie"] = {"translated": [], "lemmas_ok": False, "detail": "not attempted: the Coq build failed"}
+        elif not tie.get("lemmas_ok") and ctx.violations:
+            # the behavioural part / the oracle disagree too: name the broken source tie in the replay files
+            for sec, why in tie.get("not_tied", {}).items():
+                if not why.startswith("needs "):
+                    ctx.broken.append(f"source tie [{sec}]: {why}"[:400])
+        return orig_finish(*a, **k)
+    ctx.finish = finish
+    return common.run_standard(ctx, sys.modules[__name__])
 
 
 def diagnose(ctx, path, idxs, cases):
